@@ -531,6 +531,7 @@ func init() {
 				c.Bound([]string{"", "loop_statements_in_callees", "no_trace_at_block_ends"}[mode], fmt.Sprintf("complete: every tree of 2..%d nodes that %s, x 2", KS, []string{"", "contains 结束循环 / 继续循环", "has a block ending with a compound statement (5 nodes: and a chain without 否则)"}[mode]))
 			}
 			c02NonBool(c)
+			c02WalkChange(c)
 		},
 		Replay: func(c *mc.Ctx, raw json.RawMessage) {
 			var cs c02Case
@@ -540,6 +541,7 @@ func init() {
 			}
 			if cs.M == 0 {
 				c02NonBool(c)
+				c02WalkChange(c)
 				return
 			}
 			mode := 0
@@ -577,4 +579,98 @@ func c02NonBool(c *mc.Ctx) {
 			}
 		}
 	}
+}
+
+// c02WalkChange: a dictionary is changed by the body of the loop that walks it (at pass p one
+// entry is removed, overwritten or added).  The statement fixes this much whatever the loop does
+// about entries that come or go meanwhile: no entry is visited twice, the visits follow insertion
+// order, and every entry that is there from the first pass to the last is visited.
+func c02WalkChange(c *mc.Ctx) {
+	if c.Shard != 1%c.NShards {
+		return
+	}
+	keys := []string{"乙", "甲", "丙", "丁"}
+	type op struct {
+		text    string
+		removed string
+		added   bool
+	}
+	var ops []op
+	for _, k := range keys {
+		ops = append(ops, op{text: "以典（移除：“" + k + "”）", removed: k})
+		ops = append(ops, op{text: "典#“" + k + "” = 9"})
+	}
+	ops = append(ops, op{text: "典#“新” = 9", added: true}, op{text: "以典（写入：“新”、9）", added: true})
+	for p := 0; p < len(keys); p++ {
+		for _, o := range ops {
+			src := "令典 = 【乙 = 1，甲 = 2，丙 = 3，丁 = 4】\n以键、值遍历典：\n    （显示：键）\n    如果 键 为 “" + keys[p] + "”：\n        " + o.text + "\n（显示：“终”）\n（显示：典之所有索引）"
+			got := zn.RunReal(src, nil)
+			c.Eval(true)
+			c.Stat("walks_of_a_dictionary_changed_by_the_body", 1)
+			fail := func(exp, obs string) {
+				c.Fail(mc.Failure{Kind: "mismatch", Bucket: "walk-of-a-changed-dictionary", Case: mc.J(c02Case{Source: src}), Expected: exp, Observed: obs})
+			}
+			if got.Panic != "" || got.Err != nil {
+				fail("completes", fmt.Sprintf("err=%v panic=%s trace=%v", got.Err, got.Panic, got.Trace))
+				continue
+			}
+			end := -1
+			for i, t := range got.Trace {
+				if t == zn.Canon("终") {
+					end = i
+				}
+			}
+			if end < 0 || end+2 != len(got.Trace) {
+				fail("visits, then 终, then the keys", fmt.Sprintf("trace=%v", got.Trace))
+				continue
+			}
+			order := map[string]int{}
+			for i, k := range append(append([]string{}, keys...), "新") {
+				order[zn.Canon(k)] = i
+			}
+			seen := map[string]bool{}
+			last, bad := -1, ""
+			for _, t := range got.Trace[:end] {
+				i, known := order[t]
+				switch {
+				case !known:
+					bad = "a visit of " + t + ", which is no key"
+				case seen[t]:
+					bad = "entry " + t + " visited twice"
+				case i < last:
+					bad = "entry " + t + " visited out of insertion order"
+				}
+				seen[t], last = true, i
+			}
+			var final []string
+			for i, k := range keys {
+				if k == o.removed {
+					// gone before its turn: not asserted either way; at or after its turn: it was visited
+					if i <= p && !seen[zn.Canon(k)] && bad == "" {
+						bad = "entry “" + k + "” (removed at or after its own pass) was not visited"
+					}
+					continue
+				}
+				final = append(final, k)
+				if !seen[zn.Canon(k)] && bad == "" {
+					bad = "entry “" + k + "”, there from the first pass to the last, was never visited"
+				}
+			}
+			if o.added {
+				final = append(final, "新")
+			}
+			if bad != "" {
+				fail("every lasting entry once, in insertion order", bad+fmt.Sprintf("; trace=%v", got.Trace[:end]))
+				continue
+			}
+			fl := &zn.LV{}
+			for _, k := range final {
+				fl.Items = append(fl.Items, k)
+			}
+			if want := zn.Canon(fl); got.Trace[end+1] != want {
+				fail("keys after the loop "+want, got.Trace[end+1])
+			}
+		}
+	}
+	c.Bound("walks_of_a_changed_dictionary", fmt.Sprintf("complete: %d passes x %d changes", len(keys), len(ops)))
 }
